@@ -221,26 +221,36 @@ def pv : Bounds → List Nat
 
 def boundsOK : Bounds → Bool
   | [] => true
-  | (lo, hi) :: rest => decide (lo ≤ hi) && decide (hi < 256) && boundsOK rest
+  | (lo, hi) :: rest => Nat.ble lo hi && Nat.blt hi 256 && boundsOK rest
 
 /-- Two boxes share no point on their common coordinates. -/
 def disjointB : Bounds → Bounds → Bool
   | (l1, h1) :: a, (l2, h2) :: b => Nat.blt h1 l2 || Nat.blt h2 l1 || disjointB a b
   | _, _ => false
 
+def boundsEqB : Bounds → Bounds → Bool
+  | [], [] => true
+  | (a, b) :: x, (c, d) :: y => Nat.beq a c && Nat.beq b d && boundsEqB x y
+  | _, _ => false
+
+def natsEqB : List Nat → List Nat → Bool
+  | [], [] => true
+  | a :: x, c :: y => Nat.beq a c && natsEqB x y
+  | _, _ => false
+
 def Entry.eqB (a b : Entry) : Bool :=
-  a.inR == b.inR && a.outR == b.outR && a.inM == b.inM && a.outM == b.outM
+  boundsEqB a.inR b.inR && boundsEqB a.outR b.outR && natsEqB a.inM b.inM && natsEqB a.outM b.outM
 
 /-- One entry: boxes inside the byte range, multipliers are the place values, and the character
 set side is not larger than the UTF-8 side (every charset unit has an image). -/
 def entryOK (e : Entry) : Bool :=
-  boundsOK e.inR && boundsOK e.outR && e.inM == pv e.inR && e.outM == pv e.outR &&
-    decide (card e.inR ≤ card e.outR) && decide (0 < e.inR.length) && decide (0 < e.outR.length)
+  boundsOK e.inR && boundsOK e.outR && natsEqB e.inM (pv e.inR) && natsEqB e.outM (pv e.outR) &&
+    Nat.ble (card e.inR) (card e.outR)
 
 /-- Entries of `tbl[k]` have a `src` box of `k+1` coordinates. -/
 def shapeB (src : Entry → Bounds) : Nat → List (List Entry) → Bool
   | _, [] => true
-  | k, l :: ls => l.all (fun e => decide ((src e).length = k + 1) && entryOK e) && shapeB src (k + 1) ls
+  | k, l :: ls => l.all (fun e => Nat.beq (src e).length (k + 1) && entryOK e) && shapeB src (k + 1) ls
 
 /-- Any two entries of the list are equal or have disjoint `src` boxes (triangular check). -/
 def pairwiseB (src : Entry → Bounds) : List Entry → Bool
@@ -254,7 +264,7 @@ def subsetB (a b : List (List Entry)) : Bool :=
   a.flatten.all fun e => b.flatten.any fun e' => e.eqB e'
 
 def wfB (rm : RangeMap) : Bool :=
-  decide (rm.inE.length = rm.outE.length) &&
+  Nat.beq rm.inE.length rm.outE.length &&
   shapeB Entry.inR 0 rm.inE && shapeB Entry.outR 0 rm.outE &&
   sideDisjointB Entry.inR rm.inE && sideDisjointB Entry.outR rm.outE &&
   subsetB rm.inE rm.outE && subsetB rm.outE rm.inE
@@ -262,7 +272,7 @@ def wfB (rm : RangeMap) : Bool :=
 /-- Entries whose UTF-8 box is strictly larger than the charset box: UTF-8 units whose index
 falls beyond the charset box are "encoded" to bytes outside the charset box. -/
 def looseEntries (rm : RangeMap) : List Entry :=
-  rm.outE.flatten.filter fun e => decide (card e.inR ≠ card e.outR)
+  rm.outE.flatten.filter fun e => !(Nat.beq (card e.inR) (card e.outR))
 
 /-- The UTF-8 unit `u` hits an entry but its index lies beyond the charset box. -/
 def overflowUnit (rm : RangeMap) (u : List Nat) : Bool :=
